@@ -1,5 +1,5 @@
 /- C02 — A forwarding node never loses money on an HTLC it forwards.
-   Property theorems only.  `admit` is composed from the GENERATED translations of
+   Property theorems only.  `admitFwd` is composed from the GENERATED translations of
    `internal_htlc_satisfies_config` and `check_incoming_htlc_cltv` (Generated/Timing.lean, regenerated from
    the Rust source on every run); `FwdProto` (`Forward.step`) is the hand-written one-HTLC machine of
    Model/Forward.lean whose gating is checked against the real node on every run (harness c02.rs).
@@ -31,12 +31,12 @@ example : htlcSatisfiesConfig 101000 500 100000 400 0 1000 48 = .ok () := by rfl
     the fee is computable without u64 overflow and fully paid, the configured and the minimum CLTV delta are
     respected, and all three height margins hold. -/
 theorem admit_ok_iff (cfg : FwdCfg) (height inAmt inCltv outAmt outCltv : Nat) :
-    admit cfg height inAmt inCltv outAmt outCltv = .ok () ↔
+    admitFwd cfg height inAmt inCltv outAmt outCltv = .ok () ↔
       (∃ fee, requiredFee cfg outAmt = some fee ∧ outAmt + fee ≤ inAmt) ∧
       outCltv + cfg.cltvDelta ≤ inCltv ∧ outCltv + MIN_CLTV_EXPIRY_DELTA ≤ inCltv ∧
       height + HTLC_FAIL_BACK_BUFFER < inCltv ∧ inCltv ≤ height + CLTV_FAR_FAR_AWAY ∧
       height + LATENCY_GRACE_PERIOD_BLOCKS < outCltv := by
-  unfold admit
+  unfold admitFwd
   rw [satisfies_eq]
   cases hf : requiredFee cfg outAmt with
   | none => simp
@@ -57,14 +57,14 @@ theorem admit_ok_iff (cfg : FwdCfg) (height inAmt inCltv outAmt outCltv : Nat) :
         all_goals (constructor <;> intro h <;>
           first | cases h; done | omega | (refine ⟨hfee, ?_, ?_, ?_, ?_, ?_⟩ <;> omega) | rfl)
 
-example : admit ⟨1000, 0, 48⟩ 100 101000 500 100000 400 = .ok () := by rfl
-example : admit ⟨1000, 0, 48⟩ 100 100999 500 100000 400 = .error .feeInsufficient := by rfl
-example : admit ⟨1000, 0, 72⟩ 100 101000 471 100000 400 = .error .incorrectCLTVExpiry := by rfl
+example : admitFwd ⟨1000, 0, 48⟩ 100 101000 500 100000 400 = .ok () := by rfl
+example : admitFwd ⟨1000, 0, 48⟩ 100 100999 500 100000 400 = .error .feeInsufficient := by rfl
+example : admitFwd ⟨1000, 0, 72⟩ 100 101000 471 100000 400 = .error .incorrectCLTVExpiry := by rfl
 
 /-- **admit_no_loss.** An admitted forward offers downstream no more than what was received upstream less the
     configured fee and CLTV delta, and leaves the timing margins — for all `Nat` inputs. -/
 theorem admit_no_loss (cfg : FwdCfg) (height inAmt inCltv outAmt outCltv : Nat)
-    (hok : admit cfg height inAmt inCltv outAmt outCltv = .ok ()) :
+    (hok : admitFwd cfg height inAmt inCltv outAmt outCltv = .ok ()) :
     (∃ fee, requiredFee cfg outAmt = some fee ∧ outAmt + fee ≤ inAmt) ∧
     outCltv + cfg.cltvDelta ≤ inCltv ∧
     outCltv > height + LATENCY_GRACE_PERIOD_BLOCKS ∧
@@ -72,7 +72,7 @@ theorem admit_no_loss (cfg : FwdCfg) (height inAmt inCltv outAmt outCltv : Nat)
   obtain ⟨h1, h2, -, h4, -, h6⟩ := (admit_ok_iff ..).mp hok
   exact ⟨h1, h2, h6, h4⟩
 
-example : ∃ cfg h a b c d, admit cfg h a b c d = .ok () := ⟨⟨1000, 100, 48⟩, 100, 101010, 500, 100000, 400, by rfl⟩
+example : ∃ cfg h a b c d, admitFwd cfg h a b c d = .ok () := ⟨⟨1000, 100, 48⟩, 100, 101010, 500, 100000, 400, by rfl⟩
 
 /-- **admit_fee_exact.** The fee demanded is exactly `amt·prop/10⁶ + base` when neither the product nor the sum
     overflows u64 (so paying one msat less is refused, paying exactly that is enough as far as the fee goes),
@@ -81,21 +81,21 @@ theorem admit_fee_exact (cfg : FwdCfg) (height inAmt inCltv outAmt outCltv : Nat
     (requiredFee cfg outAmt =
       if outAmt * cfg.feeProp < 2 ^ 64 ∧ outAmt * cfg.feeProp / 1000000 + cfg.feeBase < 2 ^ 64
       then some (outAmt * cfg.feeProp / 1000000 + cfg.feeBase) else none) ∧
-    (requiredFee cfg outAmt = none → admit cfg height inAmt inCltv outAmt outCltv = .error .feeInsufficient) ∧
+    (requiredFee cfg outAmt = none → admitFwd cfg height inAmt inCltv outAmt outCltv = .error .feeInsufficient) ∧
     (∀ fee, requiredFee cfg outAmt = some fee →
-      (inAmt < outAmt + fee → admit cfg height inAmt inCltv outAmt outCltv = .error .feeInsufficient) ∧
-      (outAmt + fee ≤ inAmt → admit cfg height inAmt inCltv outAmt outCltv ≠ .error .feeInsufficient)) := by
+      (inAmt < outAmt + fee → admitFwd cfg height inAmt inCltv outAmt outCltv = .error .feeInsufficient) ∧
+      (outAmt + fee ≤ inAmt → admitFwd cfg height inAmt inCltv outAmt outCltv ≠ .error .feeInsufficient)) := by
   refine ⟨?_, ?_, ?_⟩
   · unfold requiredFee chkMul64 chkAdd64
     by_cases h1 : outAmt * cfg.feeProp < 2 ^ 64 <;>
       by_cases h2 : outAmt * cfg.feeProp / 1000000 + cfg.feeBase < 2 ^ 64 <;> simp [h1, h2]
-  · intro h; unfold admit; rw [satisfies_eq, h]
+  · intro h; unfold admitFwd; rw [satisfies_eq, h]
   · intro fee h
     constructor
-    · intro hlt; unfold admit; rw [satisfies_eq, h]
+    · intro hlt; unfold admitFwd; rw [satisfies_eq, h]
       have : inAmt < fee ∨ inAmt - fee < outAmt := by omega
       simp [this]
-    · intro hle; unfold admit; rw [satisfies_eq, h]
+    · intro hle; unfold admitFwd; rw [satisfies_eq, h]
       have : ¬ (inAmt < fee ∨ inAmt - fee < outAmt) := by omega
       simp only [this, if_false]
       by_cases c2 : inCltv < outCltv + cfg.cltvDelta
@@ -248,7 +248,7 @@ example : (run init [.setSync false, .chainPreimage, .sendFulfilUp]).up = .pendi
     worst-case combined balance change is non-negative; it is at least the demanded fee whenever B fulfilled
     upstream, and exactly `inAmt − outAmt` (the fee the sender paid) when the next hop claims. -/
 theorem forward_no_loss (cfg : FwdCfg) (height inAmt inCltv outAmt outCltv : Nat)
-    (hok : admit cfg height inAmt inCltv outAmt outCltv = .ok ()) (ops : List Op) :
+    (hok : admitFwd cfg height inAmt inCltv outAmt outCltv = .ok ()) (ops : List Op) :
     let s := run init ops
     s.up ≠ .pending →
       0 ≤ deltaWorst inAmt outAmt s ∧
